@@ -179,9 +179,9 @@ PROPS = {
         trusted_base=["pkg/template, pkg/spec (Bind/Build), pkg/value (Is) transcribed by hand into theories/Template/Template.v", COMMON_MODEL],
     ),
     "C02": dict(
-        level_text="Coq theorems about the Tracer every node owns, as a state machine over its method calls (any schedule of the forward/backward loops of all processes is a sequence of calls): for EVERY call sequence, per reader, answered requests followed by pending requests are exactly the requests read, in order (each request answered at most once, none overtaking, none lost); the reader branch answers exactly the longest prefix of the queue whose slots are recorded and completely filled, each with the join of its slots (the repaired defect: a request between Read and Link was answered with the empty packet); the answer of a derived packet is filed in exactly that packet's slot whatever the answer order, never out of range. PARTIAL: the end-to-end statement 'answer = join of the answers to the derived packets, after all of them' is the composition of these along the node discipline and is compared exactly with the implementation, at tracer level (a real Tracer, node-shaped call sequences, random interleavings) and at node level (real OneToOne/OneToMany/ManyToOne nodes in chains, fan-out, diamonds, fan-in; actions held open and released in random order; several requests pipelined in one process; every source answer checked against a reference evaluation).",
-        level_note="Partial as stated. Composition across nodes relies on C01. Trusted: Coq kernel + vm_compute; hand transcription of tracer.go (hooks/Dispatch left out: the three node kinds do not use them); the node loops (onetoone.go, onetomany.go, manytoone.go, readgroup.go) are exercised, not modelled. Node-level schedules are random (seeded) but not replayable exactly: the oracle is schedule-independent except for which input completes a many-to-one group, where both outcomes are accepted.",
-        technique="Coq proof (ledger invariant over all call sequences; specification lemmas for the answer branch and slot alignment) + vm_compute correspondence of a real Tracer + node-level reference-evaluation oracle under random schedules",
+        level_text="Coq theorems about the Tracer every node owns, as a state machine over its method calls (any schedule of the forward/backward loops of all processes is a sequence of calls): for EVERY call sequence, per reader, answered requests followed by pending requests are exactly the requests read, in order (each request answered at most once, none overtaking, none lost); the reader branch answers exactly the longest prefix of the queue whose slots are recorded and completely filled, each with the join of its slots (the repaired defect: a request between Read and Link was answered with the empty packet); the answer of a derived packet is filed in exactly that packet's slot whatever the answer order, never out of range. END TO END FOR ONE NODE (refinement): a specification machine keeps for every unanswered request the row of the packets derived from it, in link order, with the answer each has received, and answers a request only when it is the oldest unanswered request of its reader and its row is non-empty and complete - with the join of the row; for EVERY call sequence that keeps the node discipline (fresh packets; a packet is linked only to unanswered requests and before it is written; all packets derived from a request are linked before the first of them is written; each derived packet written at most once; a request without derived packets answered directly; a packet may be derived from several requests) the tracer hands out exactly the specification's answers (same requests, readers, packets, order), holds the same pending requests and writes, and never indexes out of range; the discipline keeps the specification's invariant. The discipline is computable: the correspondence run checks it on every call sequence it drives through the real Tracer (one-to-one, one-to-many, many-to-one and direct answers, random interleavings) and compares the real answers with the specification's and with the tracer model's. PARTIAL: composition ACROSS nodes is compared exactly with the implementation at node level (real OneToOne/OneToMany/ManyToOne nodes in chains, fan-out, diamonds, fan-in; actions held open and released in random order; several requests pipelined in one process; every source answer checked against a reference evaluation).",
+        level_note="Partial as stated: the workflow-level composition relies on C01 (in-order, exactly-once responses per writer) and is not a Coq theorem. Trusted: Coq kernel + vm_compute; hand transcription of tracer.go (hooks/Dispatch left out: the three node kinds do not use them); that the node loops (onetoone.go, onetomany.go, manytoone.go, readgroup.go) keep the discipline is read off their code and exercised (the harness's sequences are checked against the predicate), not proved. Node-level schedules are random (seeded) but not replayable exactly: the oracle is schedule-independent except for which input completes a many-to-one group, where both outcomes are accepted.",
+        technique="Coq proof (ledger invariant over all call sequences; refinement of the tracer to a request/row specification by simulation, with the invariant of the node discipline) + vm_compute correspondence of a real Tracer against model and specification + node-level reference-evaluation oracle under random schedules",
         quick_n=300, thorough_n=6000, shard=100, mismatch_is_failure=True,
         assumptions=["responses of a writer arrive in write order, exactly once (C01)", "one tracer call at a time (the tracer's mutex; C20)", "workflows are acyclic"],
         trusted_base=["pkg/packet/tracer.go transcribed by hand into theories/Node/Tracer.v; packet.Join as in theories/Packet/Writer.v", COMMON_MODEL],
